@@ -4,14 +4,10 @@
    callable with the arguments it received, so "once", "in order", "previous output as last argument" are statements
    about the logged trace.
 
-   Guard made visible here: the code tests `if pipeline.source` / `if not self.source` (truthiness of the callable,
-   not `is None`).  The "second source is rejected and nothing changes" and "a sourced pipeline can be called" parts
-   hold under [forall s, truthy s = true] and are REFUTED without it (C14_second_source_inert_refuted,
-   C14_sourced_call_refuted: witnesses = a source callable that is falsy, e.g. an empty callable container).
-   This is candidate finding F-S (not in known_findings.json; replay: corpus/C14/pending/FS_falsy_source.json, on which
-   the faithful model and the implementation agree and the direct oracle fails); the correspondence generator produces
-   truthy callables only (functions, bound methods, ordinary callable objects).
-   The mutator-order and call-trace parts need no guard. *)
+   No guard: "has a source" is `source is not None` (fix e7ddbc13, finding F-Y).  Before that fix the code tested the
+   truthiness of the source callable and the registry / call theorems needed [forall s, truthy s = true]; what failed
+   without it is recorded as C14_old_truthiness_second_source / C14_old_truthiness_call, statements about the
+   explicitly named old model Pipeline.OldTruthiness (not about the code as it is now). *)
 From Viv Require Import Common Pipeline PipelineProofs.
 From Coq Require Import Permutation.
 Local Open Scope Z_scope.
@@ -22,22 +18,21 @@ Section Statements.
   Variable modr : Z -> arg -> pv atom -> pv atom.
   Variable modl : Z -> arg -> atom.
   Variable post : postk -> pv atom -> result (pv atom).
-  Variable truthy : Z -> bool.
-  Local Notation step' := (step arg atom src modr modl post truthy).
-  Local Notation run' := (run arg atom src modr modl post truthy).
-  Local Notation call' := (call arg atom src modr modl post truthy).
+  Local Notation step' := (step arg atom src modr modl post).
+  Local Notation run' := (run arg atom src modr modl post).
+  Local Notation call' := (call arg atom src modr modl post).
 
   (* For EVERY sequence of registrations, look-ups and calls by anybody, in any interleaving (no guard needed):
      a pipeline's mutator list is the sub-sequence of the modifier registrations for its name, in registration order -
      before or after the source, through rejected registrations, through calls. *)
   Theorem C14_registry_mutators : forall ops r n,
     p_muts (get_pipe (fst (run' r ops)) n) = p_muts (get_pipe r n) ++ mods_of n ops.
-  Proof. exact (run_muts arg atom src modr modl post truthy). Qed.
+  Proof. exact (run_muts arg atom src modr modl post). Qed.
 
   (* For EVERY history from the empty registry: mutators as above; the source (with its combiner and post-processor) is
      the FIRST producer registered for the name; every later producer registration for that name is rejected with
      DynamicValueError and returns the very same registry. *)
-  Theorem C14_registry : (forall s, truthy s = true) -> forall ops n,
+  Theorem C14_registry : forall ops n,
     let r := fst (run' [] ops) in
     p_muts (get_pipe r n) = mods_of n ops /\
     match first_producer n ops with
@@ -46,60 +41,60 @@ Section Statements.
     end /\
     (forall pre s c k rest, ops = pre ++ RegisterProducer n s c k :: rest -> first_producer n pre <> None ->
        step' (fst (run' [] pre)) (RegisterProducer n s c k) = (fst (run' [] pre), ORejected EDynamicValue)).
-  Proof. exact (registry_history arg atom src modr modl post truthy). Qed.
+  Proof. exact (registry_history arg atom src modr modl post). Qed.
 
-  (* one step, no guard: whenever the pipeline has a source in the code's sense, a further source is refused, inertly *)
+  (* one step: whenever the pipeline has a source, a further source is refused, inertly *)
   Theorem C14_second_source_rejected : forall r n s c k,
-    has_source truthy (get_pipe r n) = true -> step' r (RegisterProducer n s c k) = (r, ORejected EDynamicValue).
-  Proof. exact (second_source_rejected arg atom src modr modl post truthy). Qed.
+    has_source (get_pipe r n) = true -> step' r (RegisterProducer n s c k) = (r, ORejected EDynamicValue).
+  Proof. exact (second_source_rejected arg atom src modr modl post). Qed.
 
   (* calls and look-ups change nothing that is registered *)
   Theorem C14_call_inert : forall r n a skip, fst (step' r (Call n a skip)) = r.
-  Proof. exact (call_inert arg atom src modr modl post truthy). Qed.
+  Proof. exact (call_inert arg atom src modr modl post). Qed.
   Theorem C14_get_value_inert : forall r n m, get_pipe (fst (step' r (GetValue n))) m = get_pipe r m.
-  Proof. exact (get_value_inert arg atom src modr modl post truthy). Qed.
+  Proof. exact (get_value_inert arg atom src modr modl post). Qed.
 
   (* replace_combiner: the trace is exactly  Src args; Mod m1 (args, v0); Mod m2 (args, v1); ...; [Post v_k]
      where v0 = source(args), v_i = m_i(args, v_(i-1)) - each modifier receives the previous stage's output as its last
      argument - and the value is post (v_k) (v_k itself when skipped or without post-processor). *)
   Theorem C14_call_trace_replace : forall p s a skip,
-    p_source p = Some s -> truthy s = true -> p_comb p = CReplace ->
+    p_source p = Some s -> p_comb p = CReplace ->
     let v := fold_left (fun x m => modr m a x) (p_muts p) (src s a) in
     call' p a skip =
       (ESrc s a :: replace_trace arg atom modr a (p_muts p) (src s a) ++
          (if post_applies p skip then [EPost (p_post p) v] else []),
        if post_applies p skip then post (p_post p) v else Ok v).
-  Proof. exact (call_replace arg atom src modr modl post truthy). Qed.
+  Proof. exact (call_replace arg atom src modr modl post). Qed.
 
   (* list_combiner: every modifier is called with the caller's arguments only and contributes one appended entry *)
   Theorem C14_call_trace_list : forall p s a skip l0,
-    p_source p = Some s -> truthy s = true -> p_comb p = CList -> src s a = Many l0 ->
+    p_source p = Some s -> p_comb p = CList -> src s a = Many l0 ->
     let v := Many (l0 ++ map (fun m => modl m a) (p_muts p)) in
     call' p a skip =
       (ESrc s a :: map (fun m => EMod m a None) (p_muts p) ++
          (if post_applies p skip then [EPost (p_post p) v] else []),
        if post_applies p skip then post (p_post p) v else Ok v).
-  Proof. exact (call_list arg atom src modr modl post truthy). Qed.
+  Proof. exact (call_list arg atom src modr modl post). Qed.
 
   (* whatever the combiner: a call that returns a value evaluated the source once, every registered modifier exactly
      once in registration order, and the post-processor once or (skipped / none) not at all *)
   Theorem C14_exactly_once : forall p a skip tr v, call' p a skip = (tr, Ok v) ->
     exists s, p_source p = Some s /\ src_ids tr = [s] /\ mod_ids tr = p_muts p /\
               post_ids tr = (if post_applies p skip then [p_post p] else []).
-  Proof. exact (call_exactly_once arg atom src modr modl post truthy). Qed.
+  Proof. exact (call_exactly_once arg atom src modr modl post). Qed.
 
   (* no source: DynamicValueError and NOTHING is evaluated *)
-  Theorem C14_no_source : forall p a skip, has_source truthy p = false -> call' p a skip = ([], Rejected EDynamicValue).
-  Proof. exact (call_no_source arg atom src modr modl post truthy). Qed.
+  Theorem C14_no_source : forall p a skip, has_source p = false -> call' p a skip = ([], Rejected EDynamicValue).
+  Proof. exact (call_no_source arg atom src modr modl post). Qed.
 
   (* nothing is ever evaluated before the source *)
   Theorem C14_source_first : forall p a skip tr rv, call' p a skip = (tr, rv) -> tr <> [] ->
     exists s rest, p_source p = Some s /\ tr = ESrc s a :: rest.
-  Proof. exact (call_trace_starts_with_source arg atom src modr modl post truthy). Qed.
+  Proof. exact (call_trace_starts_with_source arg atom src modr modl post). Qed.
 
   (* registry and call together: after ANY history, calling pipeline n logs its first-registered source, then the
      modifiers registered for n in registration order, then the post-processor *)
-  Theorem C14_history_call_replace : (forall s, truthy s = true) -> forall ops n s k a skip,
+  Theorem C14_history_call_replace : forall ops n s k a skip,
     first_producer n ops = Some (s, CReplace, k) ->
     let ms := mods_of n ops in
     let v := fold_left (fun x m => modr m a x) ms (src s a) in
@@ -108,9 +103,9 @@ Section Statements.
       (fst (run' [] ops),
        OCalled (ESrc s a :: replace_trace arg atom modr a ms (src s a) ++ (if applies then [EPost k v] else []))
                (if applies then post k v else Ok v)).
-  Proof. exact (history_call_replace arg atom src modr modl post truthy). Qed.
+  Proof. exact (history_call_replace arg atom src modr modl post). Qed.
 
-  Theorem C14_history_call_list : (forall s, truthy s = true) -> forall ops n s k a skip l0,
+  Theorem C14_history_call_list : forall ops n s k a skip l0,
     first_producer n ops = Some (s, CList, k) -> src s a = Many l0 ->
     let ms := mods_of n ops in
     let v := Many (l0 ++ map (fun m => modl m a) ms) in
@@ -119,28 +114,28 @@ Section Statements.
       (fst (run' [] ops),
        OCalled (ESrc s a :: map (fun m => EMod m a None) ms ++ (if applies then [EPost k v] else []))
                (if applies then post k v else Ok v)).
-  Proof. exact (history_call_list arg atom src modr modl post truthy). Qed.
+  Proof. exact (history_call_list arg atom src modr modl post). Qed.
 
-  Theorem C14_history_call_unsourced : (forall s, truthy s = true) -> forall ops n a skip,
+  Theorem C14_history_call_unsourced : forall ops n a skip,
     first_producer n ops = None ->
     step' (fst (run' [] ops)) (Call n a skip) = (fst (run' [] ops), OCalled [] (Rejected EDynamicValue)).
-  Proof. exact (history_call_unsourced arg atom src modr modl post truthy). Qed.
+  Proof. exact (history_call_unsourced arg atom src modr modl post). Qed.
 End Statements.
 
-(* The unguarded statements are false of the code as it stands (falsy source callable): *)
-Theorem C14_second_source_inert_refuted :
+(* Historical (model of the code BEFORE fix e7ddbc13): a falsy source callable was overwritten by a second registration
+   that was nevertheless answered with an error, and made its pipeline refuse every call; on truthy callables the old
+   code coincides with the present one. *)
+Theorem C14_old_truthiness_second_source :
   exists (tr : Z -> bool) (r : registry) n s c k e,
     p_source (get_pipe r n) <> None /\
-    unit_step tr r (RegisterProducer n s c k) =
-      (set_pipe r n {| p_source := Some s; p_muts := p_muts (get_pipe r n); p_comb := c; p_post := k |}, ORejected e) /\
-    get_pipe (fst (unit_step tr r (RegisterProducer n s c k))) n <> get_pipe r n.
-Proof. exact second_source_inert_refuted. Qed.
+    OldTruthiness.old_register_producer tr r n s c k =
+      (set_pipe r n {| p_source := Some s; p_muts := p_muts (get_pipe r n); p_comb := c; p_post := k |}, Some e) /\
+    get_pipe (fst (OldTruthiness.old_register_producer tr r n s c k)) n <> get_pipe r n.
+Proof. exact old_second_source_not_inert. Qed.
 
-Theorem C14_sourced_call_refuted :
-  exists (tr : Z -> bool) ops n,
-    first_producer n ops <> None /\
-    snd (unit_step tr (fst (unit_run tr [] ops)) (Call n tt false)) = OCalled [] (Rejected EDynamicValue).
-Proof. exact sourced_call_refuted. Qed.
+Theorem C14_old_truthiness_call :
+  exists (tr : Z -> bool) p, p_source p <> None /\ OldTruthiness.old_call_refused tr p = true.
+Proof. exact old_sourced_call_refused. Qed.
 
 (* ---- the rate post-processor: exact rational arithmetic, rate * step / year ---- *)
 Theorem C14_rescale :
@@ -215,9 +210,9 @@ Definition ex_ops : list (op carg) :=
    RegisterProducer 1 11 CList PUnion; RegisterProducer 2 11 CList PUnion; RegisterModifier 1 22; RegisterModifier 2 21].
 Definition day_ns : Z := 86400000000000.
 Definition ex_run := run carg catom (csrc ex_env) (cmodr ex_env) (cmodl ex_env)
-                         (cpost ex_env [day_ns; 3 * day_ns] (2 * day_ns)) (ctruthy ex_env).
+                         (cpost ex_env (Some [0; 2]) [day_ns; 3 * day_ns] (2 * day_ns)).
 Definition ex_step := step carg catom (csrc ex_env) (cmodr ex_env) (cmodl ex_env)
-                         (cpost ex_env [day_ns; 3 * day_ns] (2 * day_ns)) (ctruthy ex_env).
+                         (cpost ex_env (Some [0; 2]) [day_ns; 3 * day_ns] (2 * day_ns)).
 
 Example ex_registry :
   let r := fst (ex_run [] ex_ops) in
@@ -228,7 +223,7 @@ Proof. vm_compute. repeat split; reflexivity. Qed.
 
 (* simulants 0 and 2 requested; ((v*2+1)/2+3)*3-1/2 = 3v + 10; rates (1/2, 1) -> 23/2, 13; steps 1 day, 3 days *)
 Example ex_call_rate :
-  match snd (ex_step (fst (ex_run [] ex_ops)) (Call 1 (Some [0; 2], []) false)) with
+  match snd (ex_step (fst (ex_run [] ex_ops)) (Call 1 (Some [0; 2], [], []) false)) with
   | OCalled tr (Ok (One (Vec [x0; x2]))) =>
       qeqb x0 (23, 2 * 365) && qeqb x2 (13 * 3, 365) && (length tr =? 5)%nat &&
       zlist_eqb (mod_ids tr) [20; 21; 22] && zlist_eqb (src_ids tr) [10]
@@ -238,17 +233,21 @@ Proof. vm_compute. reflexivity. Qed.
 
 (* union over [1/4, 0]-source plus contributions 1/2 and 1/4: simulant 0: 1 - 3/4*1/2*3/4 = 23/32; simulant 2: 5/8 *)
 Example ex_call_union :
-  match snd (ex_step (fst (ex_run [] ex_ops)) (Call 2 (Some [0; 2], []) false)) with
+  match snd (ex_step (fst (ex_run [] ex_ops)) (Call 2 (Some [0; 2], [], [(1, 7)]) false)) with
   | OCalled tr (Ok (One (Vec [x0; x2]))) => qeqb x0 (23, 32) && qeqb x2 (5, 8) && (length tr =? 4)%nat
   | _ => false
   end = true.
 Proof. vm_compute. reflexivity. Qed.
 
-Example ex_guard_met : forall s, ctruthy ex_env s = true.
-Proof.
-  intros s. unfold ctruthy, ex_env. cbn [e_srcs zassoc].
-  destruct (10 =? s); [reflexivity|]. destruct (11 =? s); reflexivity.
-Qed.
+(* a source callable whose truth value is False (first flag of source 12) is a source like any other *)
+Definition ex_env_falsy : env :=
+  {| e_srcs := [(12, (false, false, [NSc (1, 2)])); (13, (true, false, [NSc (1, 4)]))]; e_mods := []; e_posts := [] |}.
+Example ex_falsy_source :
+  let st := step carg catom (csrc ex_env_falsy) (cmodr ex_env_falsy) (cmodl ex_env_falsy) (cpost ex_env_falsy None [] 0) in
+  let r1 := fst (st [] (RegisterProducer 1 12 CReplace PNone)) in
+  st r1 (RegisterProducer 1 13 CReplace PNone) = (r1, ORejected EDynamicValue) /\
+  snd (st r1 (Call 1 (None, [], []) false)) = OCalled [ESrc 12 (None, [], [])] (Ok (One (Sc (1, 2)))).
+Proof. vm_compute. split; reflexivity. Qed.
 
 Print Assumptions C14_registry_mutators.
 Print Assumptions C14_registry.
@@ -263,8 +262,8 @@ Print Assumptions C14_source_first.
 Print Assumptions C14_history_call_replace.
 Print Assumptions C14_history_call_list.
 Print Assumptions C14_history_call_unsourced.
-Print Assumptions C14_second_source_inert_refuted.
-Print Assumptions C14_sourced_call_refuted.
+Print Assumptions C14_old_truthiness_second_source.
+Print Assumptions C14_old_truthiness_call.
 Print Assumptions C14_rescale.
 Print Assumptions C14_union.
 Print Assumptions C14_union_pointwise.
